@@ -231,6 +231,26 @@ def _run_case(spec):
         code.update(engine.eval_keys(rel2, ['s_Riemann_down3'] + KEYS))
         code.update(call_helpers(rel2, ex, F))
         exd.update(truths(ex, F))
+        # the same tools called FIRST on a fresh instance (nothing has assembled
+        # betaup3, gammaup3, the Christoffels, ... yet); one instance per call
+        w0 = WEIGHTS[1]
+        firsts = [(f'Lie_beta::w={w0:.4g}', lambda r: r.Lie_beta(F['f'].copy(), '', weight=w0)),
+                  (f'Lie_beta:s_u:w={w0:.4g}', lambda r: r.Lie_beta(F['V'].copy(), 's_u', weight=w0)),
+                  (f'Lie_beta:s_dd:w={w0:.4g}', lambda r: r.Lie_beta(F['T'].copy(), 's_dd', weight=w0)),
+                  ('s_covd:u', lambda r: r.s_covd(F['V'].copy(), 'u')),
+                  ('s_div:dd', lambda r: r.s_div(F['T'].copy(), 'dd')),
+                  ('st_covd:u', lambda r: r.st_covd(F['V4'].copy(), F['dV4'][0].copy(), 'u'))]
+        for lab, fn in firsts:
+            if lab not in exd:
+                continue
+            _, rel3 = c04.evaluate(spec, g, [])
+            try:
+                with common.Quiet():
+                    code[lab + '#first'] = np.array(fn(rel3), copy=True)
+            except Exception as e:
+                code[lab + '#first'] = e
+            exd[lab + '#first'] = exd[lab]
+            del rel3
         if gi == 0:
             for name, fn in BAD_CALLS:
                 res['observations'] += 1
